@@ -44,6 +44,10 @@ func ParseLabelFile(fileName string, parseOneLine LineParseFunc) (map[uint16][]s
 		}
 	}
 
+	if err := fileScanner.Err(); err != nil {
+		return nil, fmt.Errorf("error reading label file: %v", err)
+	}
+
 	return result, nil
 }
 
